@@ -7,11 +7,11 @@ use vh::bld;
 """
 
 def s_arg(f, s):          # a string argument in the form's String type
-    return json.dumps(s) if f == "M" else json.dumps(s) + ".to_string()"
+    return json.dumps(s, ensure_ascii=False) if f == "M" else json.dumps(s, ensure_ascii=False) + ".to_string()"
 
 def docs_arg(m, f, d):
-    if m == "docs_portable": return "vec![%s]" % ", ".join(json.dumps(x) + ".to_string()" for x in d)
-    return "&[%s]" % ", ".join(json.dumps(x) for x in d)
+    if m == "docs_portable": return "vec![%s]" % ", ".join(json.dumps(x, ensure_ascii=False) + ".to_string()" for x in d)
+    return "&[%s]" % ", ".join(json.dumps(x, ensure_ascii=False) for x in d)
 
 def ty_arg(f, t):
     return ("::<%s>()" % t.replace("PhantomData", "core::marker::PhantomData")) if f == "M" else "(%du32)" % t
@@ -34,7 +34,9 @@ def call(b, f, c):
         if m == "compact": return ".compact::<%s>()" % c["t"]
         if m == "type_name": return ".type_name(%s)" % s_arg(f, c["tn"])
     if b == "FS" and m == "field":
-        if FRESH[0]: return ".%s(|_| FieldBuilder::new()%s)" % ("field" if f == "M" else "field_portable", chain("FB", f, c["seq"]))
+        # (the FORM is written out - `name` exists for both forms, so it cannot be inferred from a chain that starts with it;
+        # the two typestate parameters are left to inference)
+        if FRESH[0]: return ".%s(|_| FieldBuilder::<%s, _, _>::new()%s)" % ("field" if f == "M" else "field_portable", "MetaForm" if f == "M" else "PortableForm", chain("FB", f, c["seq"]))
         return ".%s(|f| f%s)" % ("field" if f == "M" else "field_portable", chain("FB", f, c["seq"]))
     if b == "VB":
         if m == "index": return ".index(%d)" % c["i"]
